@@ -963,6 +963,31 @@ impl<'s> Runner<'s> {
                     }
                 }
             }
+            Class::ProbePktChain => {
+                if plen < prog.min_pkt {
+                    return None;
+                }
+                let imms = chain_imms(prog);
+                let via_r0 = prog.p1 & 0x100 != 0;
+                let pk = &self.sc.packets[pkt];
+                let mut r = prog.p0 as usize;
+                let mut val = 0u64;
+                for imm in &imms {
+                    val = pk[(if via_r0 { r } else { prog.p0 as usize }) + imm] as u64;
+                    r = val as usize;
+                }
+                let expected = (val << 8) | prog.tag as u64;
+                if let Outcome::Ok(v) = obs.outcome {
+                    if v & 0xff != prog.tag as u64 || v >> 16 != 0 {
+                        return None;
+                    }
+                    self.counters.inc("c09_pkt_checks");
+                    self.counters.inc_dyn(format!("c09_checked/{}/{}/{}", kind.name(), engine.name(), prog.class.name()));
+                    if v != expected {
+                        return self.c09(format!("packet-load-base/{}", engine.name()), at, format!("{}: {} adjacent ldindb instructions{} starting at index {} returned byte {:#x}, the packet says {:#x}", who, imms.len(), if via_r0 { ", each indexed through r0 by the byte the one before loaded," } else { " with the same source register" }, prog.p0, v >> 8, val));
+                    }
+                }
+            }
             Class::ProbePktReload => {
                 let idx = prog.p0 as usize;
                 if plen < prog.min_pkt || (engine == Engine::Interp && plen < idx + 8) {
@@ -1486,9 +1511,18 @@ impl<'s> Runner<'s> {
                 tls(|t| {
                     t.verifier_log.clear();
                     t.veto_armed = veto_fires;
+                    t.rejected = None;
+                    t.calc_after_rejection = 0;
                 });
                 let fired_before = tls(|t| t.veto_fired);
                 let o = self.vm.as_mut().unwrap().set_program(bytes, *doff, *eoff);
+                let consulted = tls(|t| {
+                    t.rejected = None;
+                    std::mem::take(&mut t.calc_after_rejection)
+                });
+                if o.is_err() && consulted > 0 {
+                    return Err(self.c10("failed-call-changed-state/set_program".into(), at, format!("set_program(prog#{}) -> {}: after the verifier in force had rejected the program, the stack-usage calculator was consulted about it {} time(s) - the calculator works on data the VM keeps for it, so a rejected load has touched the VM's state", pid, o.short(), consulted)));
+                }
                 let fired = tls(|t| {
                     t.veto_armed = false;
                     t.veto_fired - fired_before
@@ -1574,9 +1608,18 @@ impl<'s> Runner<'s> {
                 tls(|t| {
                     t.verifier_log.clear();
                     t.veto_armed = veto_fires;
+                    t.rejected = None;
+                    t.calc_after_rejection = 0;
                 });
                 let fired_before = tls(|t| t.veto_fired);
                 let o = self.vm.as_mut().unwrap().set_verifier(*vid);
+                let consulted = tls(|t| {
+                    t.rejected = None;
+                    std::mem::take(&mut t.calc_after_rejection)
+                });
+                if o.is_err() && consulted > 0 {
+                    return Err(self.c10("failed-call-changed-state/set_verifier".into(), at, format!("set_verifier({}) -> {}: after the new verifier had rejected the loaded program, the stack-usage calculator was consulted about it {} time(s)", V_NAMES[*vid as usize], o.short(), consulted)));
+                }
                 let fired = tls(|t| {
                     t.veto_armed = false;
                     t.veto_fired - fired_before
